@@ -75,6 +75,7 @@ type Engine struct {
 	noAssume map[string]bool
 	baseLocals map[string][]localEntry // recorded with the baseline: locals of every function under contract (rename tolerance)
 	curLocals  map[string][]localEntry // of this run
+	globalInits map[string]*GlobalInit // pinned initialisers of package-level variables ("pkgpath:name")
 	litFuncs map[*ast.FuncDecl]*types.Func   // function literals verified as functions of their own (F$litN)
 	litNodes map[*ast.FuncDecl]*ast.FuncLit
 	funcFacts  map[string][]string // per function: facts about the entry heap, added to every obligation of that function
